@@ -118,14 +118,18 @@ pub fn split_compressed_records(data: &[u8]) -> Vec<Record> {
             break;
         }
 
+        // A truncated file may end inside a size prefix or inside a record
+        let Some(size_prefix) = data.get(position..position + 4) else {
+            break;
+        };
+
         let mut record_size = [0; 4];
-        record_size.copy_from_slice(&data[position..position + 4]);
+        record_size.copy_from_slice(size_prefix);
         let record_size = i32::from_be_bytes(record_size).unsigned_abs() as usize;
 
-        records.push(Record::from_slice(
-            &data[position..position + record_size + 4],
-        ));
-        position += record_size + 4;
+        let record_end = (position + record_size + 4).min(data.len());
+        records.push(Record::from_slice(&data[position..record_end]));
+        position = record_end;
     }
 
     records
